@@ -52,8 +52,33 @@ pub fn gen(seed: u64, count: usize, thorough: bool, tie_heavy: bool) -> String {
         writeln!(out, "case {k} n={n} t={t}").unwrap();
         let mut adds = 0u64;
         let mut val = 0u64;
+        // occasionally a big same-instant burst (more events pending for the current instant than any
+        // preallocated buffer holds) with zero-delay follow-ups scheduled while it is dispatched
+        let big_burst = tie_heavy && r.chance(1, 8);
         let mut vals: Vec<u64> = Vec::new();
         let mut far_vals: Vec<u64> = Vec::new();
+        if big_burst {
+            let pre = r.range(0, 2);
+            for _ in 0..pre {
+                val += 1;
+                writeln!(out, "add {} {}", r.below(3) * t, val).unwrap();
+            }
+            if pre > 0 && r.chance(1, 2) {
+                writeln!(out, "fetch").unwrap();
+            }
+            let nb = r.range(60, 140);
+            for _ in 0..nb {
+                val += 1;
+                writeln!(out, "add 0 {val}").unwrap();
+            }
+            for i in 0..nb {
+                writeln!(out, "fetch").unwrap();
+                if i % 2 == 0 || r.chance(1, 3) {
+                    val += 1;
+                    writeln!(out, "add 0 {val}").unwrap();
+                }
+            }
+        }
         // phase mix: build-up, churn, drain
         for i in 0..len {
             let phase = (3 * i) / len;
